@@ -79,9 +79,11 @@ TEXT["C06"] = {
 TEXT["C08"] = {
     "level": "Kernel-checked for every nesting and repeat count: the block-wise closed form of total_detector_shift equals the detector offset reached by executing the model one instruction at a time "
              "(mutual structural induction); flatten is defined as that execution. Correspondence under ASan+UBSan: flattened(), iteration, counts, shifts and detector coordinates equal the Lean "
-             "executor in exact rational arithmetic; print/parse round trip exact on doubles with full mantissas.",
-    "note": COMMON_NOTE + "The byte-level parser/printer model is not yet in Lean (partial): acceptance/rejection of malformed text and parser totality are not yet decided by this check.",
-    "technique": "Lean 4 theorems (mutual induction over the model AST) + model-equality correspondence in exact rationals",
+             "executor in exact rational arithmetic; print/parse round trip exact on doubles with full mantissas. Byte level: printed targets (D#, L# below 2^60, ^), tags of arbitrary bytes and unsigned numbers "
+             "read back exactly (theorems); the Lean printer produces byte-for-byte what str() prints and the Lean parser makes the same accept/reject decision and builds the same model as the implementation on "
+             "printed models, edited texts, documented violations, truncated texts and random bytes.",
+    "note": COMMON_NOTE + "One genuine defect fixed at byte level (byte 0xFF read as end of input by the string entry point).",
+    "technique": "Lean 4 theorems (mutual induction over the model AST; token round trips) + model-equality correspondence (exact rationals; byte-level printer/parser)",
 }
 TEXT["C10"] = {
     "level": "Kernel-checked: separators never contribute to an error's symptom vector, so a decomposed error denotes the XOR of its components; with the Fourier-factor laws of C03 this makes "
